@@ -5,11 +5,11 @@ from the real crate is `harness/src/prop/c07.rs`.
 
 * `op-parse e asz fmt ver hex`                     one `Operation::parse`
 * `op-iter  e asz fmt ver hex`                     `OperationIter` to the end
-* `val <op> mask v [v|type]`, `val-parse e type hex`, `val-from-u64 type n`, `val-bit-size mask type`,
+* `val-op <op> mask v [v|type]`, `val-parse e type hex`, `val-from-u64 type n`, `val-bit-size mask type`,
   `val-type-enc ate size`                          `value.rs`
 * `blk-val <op> <type> mask`                       all operand pairs of an 8-bit type / 9-bit generic patterns
-* `eval e asz fmt ver storage init obj max hex script [mode]`   a whole scripted evaluation
-* `blk-eval e asz storage max len first`           every program of `len` symbols of the alphabet
+* `expr-eval e asz fmt ver storage init obj max hex script [mode]`   a whole scripted evaluation
+* `expr-blk e asz storage max len first`           every program of `len` symbols of the alphabet
                                                    starting with symbol `first`
 -/
 namespace Gimli.Drv.C07
@@ -175,12 +175,12 @@ def handle (op : String) (args : List String) : Option String :=
       let (ops, er) := iterAll e enc bs.length (bs.length + 1) bs
       let txt := if ops.isEmpty then "-" else ";".intercalate (ops.map (fun (o, off) => s!"{o.render}@{off}"))
       pure ("ok " ++ txt ++ " " ++ (match er with | some er => er.name | none => "-"))
-  | "val", [o, mask, v] => do
+  | "val-op", [o, mask, v] => do
       let mask ← mask.toNat?; let v ← Value.parseText? v
       if o == "to_u64" then pure ((v.toU64 mask).render toString) else
       let f ← unaryOp? o
       pure ((f v mask).render Value.render)
-  | "val", [o, mask, a, b] => do
+  | "val-op", [o, mask, a, b] => do
       let mask ← mask.toNat?; let a ← Value.parseText? a
       if o == "convert" then do
         let t ← ValueType.ofName? b; pure ((a.convert t mask).render Value.render)
@@ -212,7 +212,7 @@ def handle (op : String) (args : List String) : Option String :=
           for a in [0:n] do
             h := (valWords (f ⟨t, a⟩ mask)).foldl digestStep h
           return h
-        pure ("digest " ++ toString h)
+        pure ("ok digest=" ++ toString h)
       | none => do
         let f ← binaryOp? o
         let h := Id.run do
@@ -221,8 +221,8 @@ def handle (op : String) (args : List String) : Option String :=
             for b in [0:n] do
               h := (valWords (f ⟨t, a⟩ ⟨t, b⟩ mask)).foldl digestStep h
           return h
-        pure ("digest " ++ toString h)
-  | "eval", e :: asz :: fmt :: ver :: st :: init :: obj :: mx :: h :: sc :: rest => do
+        pure ("ok digest=" ++ toString h)
+  | "expr-eval", e :: asz :: fmt :: ver :: st :: init :: obj :: mx :: h :: sc :: rest => do
       let e ← endian? e; let enc ← enc? asz fmt ver; let caps ← caps? st
       let init ← optNat? init; let obj ← optNat? obj; let mx ← optNat? mx
       let prog ← parseHex h; let script ← script? sc
@@ -231,7 +231,7 @@ def handle (op : String) (args : List String) : Option String :=
         | [m] => mode? m
         | _ => none
       pure (doEval e enc caps mode init obj mx prog script)
-  | "blk-eval", [e, asz, st, mx, len, first] => do
+  | "expr-blk", [e, asz, st, mx, len, first] => do
       let e ← endian? e; let asz ← asz.toNat?; let caps ← caps? st; let mx ← optNat? mx
       let len ← len.toNat?; let first ← first.toNat?
       let alpha := alphabet asz
@@ -239,7 +239,7 @@ def handle (op : String) (args : List String) : Option String :=
       let enc : Encoding := { addressSize := asz, format := .dwarf32, version := 4 }
       let f := fun (prog : Bytes) (h : UInt64) =>
         digestStep h (strHash (doEval e enc caps .debug none (some 0x1234) mx prog []))
-      pure ("digest " ++ toString (enumProgs alpha (len - 1) sym f digestInit))
+      pure ("ok digest=" ++ toString (enumProgs alpha (len - 1) sym f digestInit))
   | _, _ => none
 
 end Gimli.Drv.C07
